@@ -115,6 +115,9 @@ func (e *FieldExpression) Evaluate(ctx *Context, input system.Collection) (syste
 		fieldName := strcase.ToSnake(e.FieldName)
 		reflect := message.ProtoReflect()
 		field := reflect.Descriptor().Fields().ByName(protoreflect.Name(fieldName))
+		if field == nil {
+			field = e.fieldByElementName(reflect.Descriptor())
+		}
 
 		// extract field and append to output, flattening
 		// if the field is a list. Raises error if field doesn't exist
@@ -227,7 +230,7 @@ func (e *FieldExpression) isEvaluable(msg proto.Message) bool {
 
 	// Prevent snake_case fields, since all FHIRPath fields need to be in
 	// camelCase.
-	if strcase.ToLowerCamel(e.FieldName) != e.FieldName {
+	if strcase.ToLowerCamel(e.FieldName) != e.FieldName && e.fieldByElementName(msg.ProtoReflect().Descriptor()) == nil {
 		return false
 	}
 
@@ -239,6 +242,19 @@ func (e *FieldExpression) isEvaluable(msg proto.Message) bool {
 	}
 
 	return true
+}
+
+// fieldByElementName finds the field whose FHIR element name is FieldName for
+// the few elements whose names do not survive the camelCase/snake_case
+// round-trip (lethalDose50, carrierAIDC, requestURL, ...): google/fhir records
+// the element name as the field's JSON name. Reference.reference is excluded,
+// since it is synthesized from whichever member of the reference oneof is set.
+func (e *FieldExpression) fieldByElementName(descriptor protoreflect.MessageDescriptor) protoreflect.FieldDescriptor {
+	field := descriptor.Fields().ByJSONName(e.FieldName)
+	if field == nil || field.ContainingOneof() != nil || field.Kind() != protoreflect.MessageKind {
+		return nil
+	}
+	return field
 }
 
 func (e *FieldExpression) errField(object any) error {
